@@ -19,8 +19,11 @@ replayed into a real receiver under a random interleaving the environment model 
 command X) gets the constructor ARGUMENTS and the events and runs C03's constructor model + `oobAfter` /
 `sendConstructed`, then `recvRun` with `infoOfParse` (no table from the real parser) and `parsedDelivery`; stream
 `info-of-parse` - `infoOfParse` against the probe table of the real parser on every kind of message the receiver
-streams use.  Implementation-only stream `recv-reentrant`: handlers that feed the next reads before they return, or
-raise while the caller keeps the connection (as harness/c04.py `reentrant-delivery`).
+streams use.  Stream `recv-reentrant` (S3 only - outside the property's quantifier): handlers that feed the next reads
+before they return, or raise while the caller keeps the connection, against the Lean receiver on the linear events.
+State-leak round 2026-09-30: every binary-mode receiver is made by `makeConnection` + one `BEGIN` read (nothing planted);
+stream `recv-connections` (2-3 live connections, interleaved, one lost with a descriptor queued, `judge` and the model per
+connection); `sender-default-list` (constructions without the `oobFDs` keyword); messages re-sent on a second transport.
 Oracle (S4, implementation only): every `h` argument of message i resolves to the descriptor sent at
 that position with message i, exactly len(fds(i)) entries are consumed, for every interleaving a stream
 socket can produce; sender: header count = number of `h` arguments = len(oobFDs), indices 0..k-1 in
@@ -37,7 +40,8 @@ STREAMS = ['recv-exhaustive', 'recv-random', 'recv-handshake', 'recv-malformed',
 THEOREMS = ['sender_layout', 'attribution', 'attribution_after_handshake', 'attribution_callRemote',
             'sender_calls_consistent', 'model_rules_match_source',
             'info_of_constructed', 'descriptors_end_to_end', 'descriptors_end_to_end_sender',
-            'descriptors_end_to_end_after_handshake', 'sender_sends_constructed', 'senderEvs_consistent']
+            'descriptors_end_to_end_after_handshake', 'sender_sends_constructed', 'senderEvs_consistent',
+            'descriptors_end_to_end_literal']
 TRUSTED_BASE = [
     'the message parser is an abstract parameter of the receiver model (raw message -> declared unix_fds, '
     'indices of its h arguments); in the streams recv-* the harness tabulates it by parsing each raw message with a '
@@ -53,11 +57,9 @@ ASSUMPTIONS = [
     '(C01-C03 round trip): hypothesis of msgOK_of_callRemote / attribution_callRemote for an abstract parser; PROVED for '
     'infoOfParse on every message the C03 model constructs (info_of_constructed), so descriptors_end_to_end has no such '
     'hypothesis',
-    'handlers that re-enter dataReceived or raise while the caller keeps the connection (stream recv-reentrant) are '
-    'judged: the statement quantifies over message sequences and interleavings, not over what handlers do; a reactor '
-    'would drop the connection after an escaped exception (then nothing later is delivered and nothing is judged)',
-    'a handshake case is not judged when the authenticator refused the handshake although it was handed its lines '
-    '(authentication is C06 / C07); missing or altered lines are judged',
+    'handlers that re-enter dataReceived, or raise while the caller keeps the connection (stream recv-reentrant), are '
+    'OUTSIDE the property (a socket never delivers a read while a handler runs; a reactor drops the connection after an '
+    'escaped exception): compared with the Lean model (S3, labels reentrant-...), never reported as a violation',
     'descriptors of message i arrive in sending order, after those of earlier messages, each no later than the '
     'read that contains the last byte of message i; bytes arrive in order, cut arbitrarily',
     'the order that upstream marks unfixable (bytes of a message before its descriptors) is outside the property',
@@ -1160,7 +1162,7 @@ def judge_reentrant(sc, o):
 
 def stream_recv_reentrant(ctx):
     rng = ctx.rng
-    n = ctx.scale(quick=700, thorough=15000)
+    n = ctx.scale(quick=700, thorough=8000)
     scs = []
     for _ in range(n):
         k = rng.choice([2, 3, 4, 6, 9])
@@ -1385,7 +1387,7 @@ def run_connections_batch(ctx, scs):
 
 def stream_recv_connections(ctx):
     rng = ctx.rng
-    n = ctx.scale(quick=500, thorough=10000)
+    n = ctx.scale(quick=500, thorough=6000)
     run_connections_batch(ctx, [gen_connections(rng) for _ in range(n)])
 
 
@@ -1580,7 +1582,7 @@ def e2e_impl_line(sent, o):
 def stream_end_to_end(ctx):
     rng = ctx.rng
     marshal, message, protocol = _mods()
-    n = ctx.scale(quick=1200, thorough=20000)
+    n = ctx.scale(quick=1200, thorough=12000)
     cases = []
     for _ in range(n):
         k = rng.choice([1, 2, 3, 3, 4, 6, 9])
